@@ -140,7 +140,7 @@ func racePass(work string, reps int) (notes []string, wrong []string) {
 	buildS := time.Since(t0).Seconds()
 	logBase := filepath.Join(work, "racelog")
 	w := exec.Command(bin, "raceworker", filepath.Join(work, "race"))
-	w.Env = append(os.Environ(), "GORACE=log_path="+logBase+" halt_on_error=0 history_size=3", fmt.Sprintf("C05_RACE_REPS=%d", reps))
+	w.Env = append(os.Environ(), "GORACE=log_path="+logBase+" halt_on_error=0", fmt.Sprintf("C05_RACE_REPS=%d", reps))
 	t1 := time.Now()
 	out, err := w.CombinedOutput()
 	runS := time.Since(t1).Seconds()
